@@ -152,21 +152,29 @@ func ShapesFor(f Field, c *Counter, gob bool) []Shaped {
 		}
 		return []Shaped{{"str", v}}
 	case KUint:
-		v, w := reflect.New(ft).Elem(), reflect.New(ft).Elem()
+		// boundary values next to zero (a guard written as != 1 or > 1 instead of != 0 loses exactly these)
+		v, w, one, two := reflect.New(ft).Elem(), reflect.New(ft).Elem(), reflect.New(ft).Elem(), reflect.New(ft).Elem()
 		v.SetUint(42)
 		w.SetUint(1 << 40)
-		return []Shaped{{"uint", v}, {"uint-big", w}}
+		one.SetUint(1)
+		two.SetUint(2)
+		return []Shaped{{"uint", v}, {"uint-big", w}, {"uint-one", one}, {"uint-two", two}}
 	case KInt:
-		p, n := reflect.New(ft).Elem(), reflect.New(ft).Elem()
+		p, n, one, mone := reflect.New(ft).Elem(), reflect.New(ft).Elem(), reflect.New(ft).Elem(), reflect.New(ft).Elem()
 		p.SetInt(7)
 		n.SetInt(-7)
-		return []Shaped{{"pos", p}, {"neg", n}}
+		one.SetInt(1)
+		mone.SetInt(-1)
+		return []Shaped{{"pos", p}, {"neg", n}, {"one", one}, {"minus-one", mone}}
 	case KFloat:
-		p, n, w := reflect.New(ft).Elem(), reflect.New(ft).Elem(), reflect.New(ft).Elem()
+		p, n, w, one, mone, small := reflect.New(ft).Elem(), reflect.New(ft).Elem(), reflect.New(ft).Elem(), reflect.New(ft).Elem(), reflect.New(ft).Elem(), reflect.New(ft).Elem()
 		p.SetFloat(12.515625)
 		n.SetFloat(-12.515625)
 		w.SetFloat(90)
-		return []Shaped{{"pos", p}, {"neg", n}, {"whole", w}}
+		one.SetFloat(1)
+		mone.SetFloat(-1)
+		small.SetFloat(0.015625)
+		return []Shaped{{"pos", p}, {"neg", n}, {"whole", w}, {"one", one}, {"minus-one", mone}, {"small", small}}
 	case KBool:
 		return []Shaped{{"true", reflect.ValueOf(true)}}
 	case KSource:
